@@ -58,6 +58,49 @@ func init() {
 				st.violation("C10", it.ID+" unknown "+u, fmt.Sprintf("unknown name %q maps to %d, not INVALID", u, ty), map[string]any{"name": u})
 			}
 		}
+		// lookups do not depend on earlier lookups: every sequence of three Type calls over a few terminal names and
+		// unknown names (the same name twice in a row included), each with an Id call in between or not, answers as
+		// the single lookups above did
+		{
+			var alpha []string
+			want := map[string]int{}
+			for i := 2; i < n && len(alpha) < 4; i++ {
+				name := im.TokId(i)
+				if _, dup := want[name]; dup || jsonSafe(name) != name {
+					continue
+				}
+				alpha = append(alpha, name)
+				want[name] = i
+			}
+			for _, u := range []string{"", "no such token", "S"} {
+				if !isTerm[u] {
+					alpha = append(alpha, u)
+					want[u] = 0
+				}
+			}
+			bad := false
+			for _, withId := range []bool{false, true} {
+				for a := 0; a < len(alpha) && !bad; a++ {
+					for b := 0; b < len(alpha) && !bad; b++ {
+						for c := 0; c < len(alpha) && !bad; c++ {
+							seq := []string{alpha[a], alpha[b], alpha[c]}
+							st.add("lookup_sequences", 1)
+							for k, name := range seq {
+								got := im.TokType(name)
+								if withId {
+									im.TokId(got)
+								}
+								if got != want[name] {
+									bad = true
+									st.violation("C10", it.ID+" lookup history", fmt.Sprintf("after the lookups Type(%q) the lookup Type(%q) = %d; asked on its own it is %d: the answer depends on earlier lookups", seq[:k], name, got, want[name]), map[string]any{"sequence": seq, "position": k})
+									break
+								}
+							}
+						}
+					}
+				}
+			}
+		}
 		// the lexer emits exactly these numbers: the lexeme of a string-literal terminal is its content
 		lits, _ := it.Extra["strlits"].([]any)
 		if im.NewLexer != nil {
